@@ -8,7 +8,7 @@
     lr.Parser.Parse / ParseAndBuildAST, for every grammar, table and input. *)
 From Coq Require Import List ZArith.
 From Algo.Grammar Require Import CFG.
-From Algo.C11 Require Import Model ModelPrec ModelSLR ModelLR1 Spec Proofs ProofsTerm ProofsOracle ProofsPrec ProofsPrecExpr ProofsLR0 ProofsSLR ProofsCLR.
+From Algo.C11 Require Import Model ModelPrec ModelSLR ModelLR1 Spec Proofs ProofsTerm ProofsOracle ProofsPrec ProofsPrecExpr ProofsLR0 ProofsSLR ProofsCLR ProofsLALR.
 Import ListNotations.
 
 (** Soundness of the driver over any certified table: if [Parse] accepts [w] then [w] is a
@@ -223,6 +223,35 @@ Proof.
   destruct (C11_driver_sound G tbl lbl f w evs OK Hp) as [H1 [H2 [_ [_ [H3 H4]]]]]. auto.
 Qed.
 
+(** The same for the modelled LALR(1) construction: the canonical LR(1) states with equal
+    cores are merged (a merged state is the union of its class; its GOTO is the class of the
+    GOTO of the class representative).  Labels depend on cores only, so the merged state
+    inherits the label of its members. *)
+Theorem C11_lalr_construction_ok :
+  forall (G : gram) (fuel : nat) (ls : levels) (tbl : table),
+    (forall p c, In p (prods G) -> In (Tm c) (body p) -> In c (terms G)) ->
+    build_lalr fuel G ls = BuiltOk tbl ->
+    exists lbl, table_ok G tbl lbl = true.
+Proof.
+  intros G fuel ls tbl Hvalid H.
+  destruct (canonical1 fuel G) as [C|] eqn:EC.
+  - eexists. exact (lalr_table_ok G Hvalid fuel C EC ls tbl H).
+  - unfold build_lalr, finish, lalr_raw in H. rewrite EC in H. discriminate.
+Qed.
+
+Corollary C11_lalr_parser_sound :
+  forall (G : gram) (fuel : nat) (ls : levels) (tbl : table) (f : nat) (w : list nat) (evs : list event),
+    (forall p c, In p (prods G) -> In (Tm c) (body p) -> In c (terms G)) ->
+    build_lalr fuel G ls = BuiltOk tbl ->
+    parse f tbl w = Accepted evs ->
+    L G w /\ rightmost_reverse G (prods_of evs) w /\
+    yield (ast_of evs) = map Some w /\ postorder (ast_of evs) = prods_of evs.
+Proof.
+  intros G fuel ls tbl f w evs Hvalid Hb Hp.
+  destruct (C11_lalr_construction_ok G fuel ls tbl Hvalid Hb) as [lbl OK].
+  destruct (C11_driver_sound G tbl lbl f w evs OK Hp) as [H1 [H2 [_ [_ [H3 H4]]]]]. auto.
+Qed.
+
 (** Witness checker for long sentences: a production sequence accepted by [lm_check] is a
     leftmost derivation of the string. *)
 Theorem C11_witness_sound :
@@ -297,4 +326,6 @@ Print Assumptions C11_slr_construction_ok.
 Print Assumptions C11_slr_parser_sound.
 Print Assumptions C11_clr_construction_ok.
 Print Assumptions C11_clr_parser_sound.
+Print Assumptions C11_lalr_construction_ok.
+Print Assumptions C11_lalr_parser_sound.
 Print Assumptions C11_d11a_unrepaired_table_refuted.
